@@ -126,3 +126,16 @@ def replica_routing(rep, prop, seed, tier):
             i, what_ = min(bad, key=lambda x: len(cases2[x[0]]))
             result = {"kind": "history", "mode": mode, "oracle": what_, "case": {"line": cases2[i], "format": fmt_}, "impl": impl2[i], "failing_cases": len(bad)}
     return result
+
+
+def concurrent_hostset(rep, prop, seed, tier):
+    """host.Set updated by several goroutines at once with commuting updates (each its own share of up to 3000 hosts) while a reader
+    takes snapshots: afterwards the usable hosts are exactly the healthy members of the preferred tier.  Returns a violation dict or None."""
+    res = differential(rep, prop, "c15conc", seed, 30 if tier == "quick" else 1500, tier, model_modes=[])
+    cases, impl = res["cases"], res["impl"]
+    bad = [i for i in range(len(cases)) if impl[i] != "ok"]
+    add_corr(rep, "host.Set under concurrent commuting updates and a concurrent reader: final and intermediate snapshots vs the property's oracle", res, bad, len(set(cases)))
+    if not bad:
+        return None
+    i = bad[0]
+    return {"kind": "schedule", "oracle": impl[i], "case": {"line": cases[i], "format": "seed mains backups workers (harness c15conc -in <file>)"}, "impl": impl[i], "failing_cases": len(bad)}
